@@ -262,4 +262,105 @@ theorem foldlE_docStep_kvs (ls : List Bytes)
       simp only [docStep, hc, List.filterMap_cons, hkv]
       exact ih (fun x hx => h x (by simp [hx])) _
 
+/-! ### the header lines the writer emits, as `#KEY value` lines -/
+
+def kvLine (kv : Bytes × Bytes) : Bytes := '#' :: kv.1 ++ ' ' :: kv.2
+
+/-- a key the classifier reads back as it stands: no white space, first character not a digit -/
+def KeyOK (k : Bytes) : Prop := ∃ a r, k = a :: r ∧ isDigit a = false ∧ ∀ c ∈ a :: r, isWs c = false
+
+/-- what the reader's dict gets from the line of an entry: the value without trailing white space; nothing when
+the value is blank -/
+def kvRead (kv : Bytes × Bytes) : Option (Bytes × Bytes) := if rstrip kv.2 = [] then none else some (kv.1, rstrip kv.2)
+
+theorem lineKV_kvLine (kv : Bytes × Bytes) (hk : KeyOK kv.1) : lineKV (kvLine kv) = kvRead kv := by
+  obtain ⟨a, r, hkr, ha, hw⟩ := hk
+  unfold lineKV kvLine kvRead
+  rw [hkr, classify_kv a r kv.2 ha hw]
+  by_cases hv : rstrip kv.2 = []
+  · simp [hv]
+  · simp [hv]
+
+theorem kvLine_ok (kv : Bytes × Bytes) (hk : KeyOK kv.1) :
+    (∃ k v, classify (kvLine kv) = .ok (.header k v)) ∨ classify (kvLine kv) = .ok .skip := by
+  obtain ⟨a, r, hkr, ha, hw⟩ := hk
+  unfold kvLine
+  rw [hkr, classify_kv a r kv.2 ha hw]
+  split
+  · right; rfl
+  · left; exact ⟨_, _, rfl⟩
+
+theorem kvRead_clean (kv : Bytes × Bytes) (hv : kv.2 ≠ []) (hvw : ∀ c ∈ kv.2, isWs c = false) : kvRead kv = some kv := by
+  unfold kvRead
+  rw [rstrip_of_all _ hvw]
+  simp [hv]
+
+theorem kvRead_key (kv kv' : Bytes × Bytes) (h : kvRead kv = some kv') : kv'.1 = kv.1 := by
+  unfold kvRead at h
+  split at h
+  · cases h
+  · injection h with h; rw [← h]
+
+theorem filterMap_kvRead_keys (L : List (Bytes × Bytes)) : ∀ kv' ∈ L.filterMap kvRead, ∃ kv ∈ L, kv'.1 = kv.1 := by
+  intro kv' h
+  obtain ⟨kv, hkv, hr⟩ := List.mem_filterMap.mp h
+  exact ⟨kv, hkv, kvRead_key kv kv' hr⟩
+
+theorem filterMap_kvRead_clean (L : List (Bytes × Bytes)) (h : ∀ kv ∈ L, kv.2 ≠ [] ∧ ∀ c ∈ kv.2, isWs c = false) :
+    L.filterMap kvRead = L := by
+  induction L with
+  | nil => rfl
+  | cons a t ih =>
+    rw [List.filterMap_cons, kvRead_clean a (h a (by simp)).1 (h a (by simp)).2, ih (fun kv hkv => h kv (by simp [hkv]))]
+
+/-- the header dict of a list of `#KEY value` lines followed by the blank separator line -/
+theorem header_of_entries (entries : List (Bytes × Bytes)) (hk : ∀ kv ∈ entries, KeyOK kv.1) :
+    foldlE docStep ⟨[], []⟩ (entries.map kvLine ++ [[]]) =
+      .ok ⟨(entries.filterMap kvRead).foldl (fun d kv => dictSet d kv.1 kv.2) [], []⟩ := by
+  have hok : ∀ l ∈ entries.map kvLine ++ [[]], (∃ k v, classify l = .ok (.header k v)) ∨ classify l = .ok .skip := by
+    intro l hl
+    rcases List.mem_append.mp hl with h | h
+    · obtain ⟨kv, hkv, rfl⟩ := List.mem_map.mp h
+      exact kvLine_ok kv (hk kv hkv)
+    · simp only [List.mem_singleton] at h; subst h; right; rfl
+  rw [foldlE_docStep_kvs _ hok]
+  have : (entries.map kvLine ++ [[]]).filterMap lineKV = entries.filterMap kvRead := by
+    rw [List.filterMap_append]
+    have h1 : ([[]] : List Bytes).filterMap lineKV = [] := rfl
+    rw [h1, List.append_nil, List.filterMap_map]
+    apply List.filterMap_congr
+    intro kv hkv
+    exact lineKV_kvLine kv (hk kv hkv)
+  rw [this]
+
+/-- the entries `_write_file_header` renders, in line order (with an `#LNOBJ` id) -/
+def headerEntries (c : WChart) (bpmText : Bytes) : List (Bytes × Bytes) :=
+  [("TITLE".toList, c.title), ("ARTIST".toList, c.artist), ("BPM".toList, bpmText), ("PLAYLEVEL".toList, c.version)]
+    ++ c.misc ++ [("LNOBJ".toList, c.lnEnd)] ++ bpmEntries c.bpms
+    ++ c.samples.map (fun kv => ("WAV".toList ++ kv.1, kv.2))
+
+theorem writeHeader_entries (c : WChart) (hl : List Bytes) (h : writeHeader c = .ok hl) (hln : c.lnEnd ≠ []) :
+    ∃ b0 rest bpmText, c.bpms = b0 :: rest ∧ showExact b0.bpm = some bpmText ∧
+      hl = (headerEntries c bpmText).map kvLine := by
+  unfold writeHeader at h
+  cases hb : c.bpms with
+  | nil => simp [hb] at h
+  | cons b0 rest =>
+    simp only [hb] at h
+    split at h
+    · cases h
+    · cases hs : showExact b0.bpm with
+      | none => simp [hs] at h
+      | some bpmText =>
+        simp only [hs] at h
+        injection h with h
+        refine ⟨b0, rest, bpmText, rfl, hs, ?_⟩
+        have hemp : c.lnEnd.isEmpty = false := by
+          cases hc : c.lnEnd with
+          | nil => exact absurd hc hln
+          | cons _ _ => rfl
+        rw [← h]
+        have hkv : kvLine = fun kv => '#' :: kv.1 ++ ' ' :: kv.2 := rfl
+        simp [headerEntries, hkv, bpmEntries, hemp, hb, Function.comp_def]
+
 end Reamber.BMS
